@@ -86,6 +86,9 @@ type Spec struct {
 	SvcPort                        uint16
 	IngressPrio                    int32
 	SrcPod, DstPod                 string // override; default derived from From
+	// Layout 1: the record comes from an exporter whose template lists the fields in a different order
+	// (e.g. another exporter version): same names, different positions
+	Layout int
 }
 
 func ie(name string, ent uint32) *entities.InfoElement {
@@ -162,6 +165,16 @@ func Record(s Spec) entities.Record {
 	add(entities.NewSigned32InfoElement(ie("ingressNetworkPolicyRulePriority", A), s.IngressPrio))
 	add(entities.NewStringInfoElement(ie("tcpState", A), s.TCPState))
 	add(entities.NewStringInfoElement(ie("httpVals", A), ""))
+	if s.Layout == 1 {
+		// rotate everything after the flow key and reverse the tail
+		n := len(els)
+		out := make([]entities.InfoElementWithValue, 0, cap(els))
+		out = append(out, els[:5]...)
+		for i := n - 1; i >= 5; i-- {
+			out = append(out, els[i])
+		}
+		els = out
+	}
 	return entities.NewDataRecordFromElements(256, els, true)
 }
 
